@@ -62,11 +62,13 @@ def gen_table_op(which):
         conns = [Conn(i, sent) for i in range(3)]
         for table, active in _tables(conns, rng, 60 if tier == 'quick' else 600):
             for c in conns:
-                for e in (EVENTS + ['x'] if which != 'reset_connection' else [None]):
+                for e in (EVENTS + ['x'] if which in ('subscribe', 'unsubscribe') else [None]):
                     _setup(d, table, active, conns)
                     if rng.random() < 0.4:
                         d._connections = [c]          # the only registered connection
                     args = {'conn': c} if e is None else {'conn': c, 'eventname': e}
+                    if which == 'handle__ident':
+                        args = {'conn': c, 'specifier': None, 'data': None}
                     yield dict(label=f'{table!r} active={active!r} {which}({c},{e!r})', self=d, args=args, ghosts={'sent': sent})
     return gen
 
@@ -87,5 +89,19 @@ def gen_broadcast(tier, rng):
                        ghosts={'sent': sent})
 
 
-GENS = {'Dispatcher.subscribe': gen_table_op('subscribe'), 'Dispatcher.unsubscribe': gen_table_op('unsubscribe'),
+def gen_deactivate(tier, rng):
+    """random subscription tables x 3 connections x deactivate of every event name, of the whole node (no specifier), with data"""
+    d = _dispatcher()
+    sent = []
+    conns = [Conn(i, sent) for i in range(3)]
+    for table, active in _tables(conns, rng, 40 if tier == 'quick' else 400):
+        for c in conns:
+            for e, data in [(x, None) for x in EVENTS + ['x', None, '']] + [('m', 1), (None, 'x')]:
+                _setup(d, table, active, conns)
+                yield dict(label=f'{table!r} active={active!r} deactivate({c},{e!r},{data!r})', self=d,
+                           args={'conn': c, 'specifier': e, 'data': data}, ghosts={'sent': sent})
+
+
+GENS = {'Dispatcher.handle__ident': gen_table_op('handle__ident'), 'Dispatcher.remove_connection': gen_table_op('remove_connection'),
+        'Dispatcher.handle_deactivate': gen_deactivate, 'Dispatcher.subscribe': gen_table_op('subscribe'), 'Dispatcher.unsubscribe': gen_table_op('unsubscribe'),
         'Dispatcher.reset_connection': gen_table_op('reset_connection'), 'Dispatcher.broadcast_event': gen_broadcast}
